@@ -69,6 +69,10 @@ fn core(prop: &str, tier: u8) -> &'static Vec<SProg> {
             // a try_lock that fails first and succeeds once the holder - which waits inside its critical section for the
             // try-locker's message / for a third thread - has released
             v.push(sp(vec![vec![Lock(0), Recv, Unlock(0), Join(1)], vec![Send(11), TryLock(0), Unlock(0)]]));
+            // ... with the try-locker released (unparked) only after the holder has the lock, as if spawned after it
+            v.push(sp(vec![vec![Lock(0), Unpark(1), Recv, Unlock(0), Join(1)], vec![Park, Send(11), TryLock(0), Unlock(0)]]));
+            v.push(sp(vec![vec![Lock(0), Unpark(1), Join(2), Unlock(0), Join(1)], vec![Park, TryLock(0), Unlock(0)], vec![ALoad(0)]]));
+            v.push(sp(vec![vec![Lock(0), Unpark(1), NWait, Unlock(0), Join(1)], vec![Park, NNotify, TryLock(0), Unlock(0)]]));
             v.push(sp(vec![vec![Lock(0), Join(2), Unlock(0), Join(1)], vec![ALoad(0), TryLock(0), Unlock(0)], vec![AStore(0, 1)]]));
             v.push(sp(vec![vec![Lock(0), Park, Unlock(0), Join(1)], vec![Unpark(0), TryLock(0), Unlock(0)]]));
             // two readers that overlap (in different threads) and a third thread with two write-side operations:
